@@ -789,15 +789,15 @@ def oracle(c, out):
             es = dict(es, acodec="none", audio=[])
         queue = op in ("c07.rtsp", "c07.e2e_rtsp") and d.get("filt", "1") == "1" and es["vcodec"] != "none" and es["acodec"] != "none"
         atol = 1 if d.get("am", "").startswith("multi") else 0
-        drop_last = op in ("c07.ps", "c07.e2e_ps")
-        adts = drop_last or d.get("af") == "adts"
+        drop_last = op in ("c07.ps", "c07.e2e_ps") and d.get("last") != "1"
+        adts = op in ("c07.ps", "c07.e2e_ps") or d.get("af") == "adts"
         if op in ("c07.rtsp", "c07.cust"):
             msgs = msgs_of_groups(parse_groups(out))
             check_with_tail(msgs, es, "start", queue, drop_last, adts, atol, False)
             return (True, "")
         if op == "c07.ps":
             msgs = ps_msgs(out)
-            check_with_tail(msgs, es, "start", False, True, True, atol, False)
+            check_with_tail(msgs, es, "start", False, drop_last, True, atol, False)
             return (True, "")
         if op.startswith("c07.e2e_"):
             f = out.split(" ")
@@ -910,8 +910,8 @@ def gen_a2r(tier, rng):
                 # a second, different set of parameter sets before the next key frame
                 ps2 = param_sets(rng, hevc)
                 yield Case(a2r_line(vfmt, 1, [P(0, ps + [idr]), P(40, [p]), P(80, ps2 + [idr]), P(120, [p])], True), cls="a2r-params-change")
-                # several PPS in one access unit (only the first completes the header; correspondence only)
-                yield Case(a2r_line(vfmt, 1, [P(0, ps + [ps[-1][:1] + b"\x55\x66", idr])], False), cls="a2r-two-pps")
+                # several PPS in one access unit: only the first one reaches a sequence header (known finding C07-KF-MULTI-PPS)
+                yield Case(a2r_line(vfmt, 1, [P(0, ps + [ps[-1][:1] + b"\x55\x66", idr]), P(40, [p])], True), cls="a2r-two-pps")
                 # SPS the parser refuses / panics on (correspondence only)
                 for bad in (ps[0][:1] if hevc else ps[0][:2], ps[0][:3], ps[0][:len(ps[0]) // 2], (b"\x67\x42\x00\x1e\xff" if not hevc else ps[0][:4])):
                     bl = list(ps)
@@ -1079,6 +1079,9 @@ def grid(rng, tier):
                              aud=rng.randrange(2), inband=1, ex=rng.choice(["", "sei", "slices", "filler"])))
     out.append(S(op="ps", v="h264", a="aac", ar=44100, pes=65000, pts="first", mtu=1400, sz="l", nv=4, gop=2, inband=1, stuff=3))
     out.append(S(op="ps", v="h264", a="none", pes=300, pts="first", mtu=1400, sz="m", nv=6, gop=3, inband=1, chg=3))
+    # the oracle demands EVERY frame, the last one of each track included (known finding C07-KF-PS-LAST-FRAME)
+    out.append(S(op="ps", v="h264", a="aac", ar=44100, pes=65000, pts="first", mtu=1400, sz="s", nv=4, gop=2, inband=1, last=1))
+    out.append(S(op="e2e_ps", v="h265", a="none", pes=65000, pts="first", mtu=1400, sz="s", nv=3, gop=3, inband=1, last=1))
     # 3-byte / 5-byte start codes in front of every NAL unit (fix c2a7c0d), pack-header stuffing cut by rtp boundaries (fix 7d679c8)
     for v in ("h264", "h265"):
         for sc in ("a3", "a5"):
@@ -1163,3 +1166,32 @@ def neighbors(c, rng):
         for k in range(6):
             d2 = dict(d, seed=str(int(d["seed"]) * 7 + k))
             yield build(d2)[0]
+
+
+# ================================================================= known findings (open): matched narrowly
+def classify_finding(c, out):
+    f = c.line.split(" ")
+    d = parse_spec(c.line) or {}
+    if f[0] == "c07.av2rtmp" and d.get("wf") == "1":
+        # an access unit that carries two different parameter sets of one type: lal keeps one of each
+        vfmt = int(f[1])
+        for st in f[3].split(","):
+            x = st.split(":")
+            if x[0] != "P" or int(x[1]) not in (PT_AVC, PT_HEVC):
+                continue
+            hevc = int(x[1]) == PT_HEVC
+            try:
+                nals = split_avcc_strict(tok_bytes(x[3])) if vfmt == 1 else c19_h26x.ref_split_annexb(tok_bytes(x[3]))
+            except Bad:
+                continue
+            seen = {}
+            for n in nals:
+                if n and is_param(hevc, n):
+                    t = nal_type(hevc, n)
+                    if t in seen and seen[t] != n:
+                        return "C07-KF-MULTI-PPS"
+                    seen[t] = n
+        return None
+    if f[0] in ("c07.ps", "c07.e2e_ps") and d.get("last") == "1":
+        return "C07-KF-PS-LAST-FRAME"
+    return None
